@@ -30,6 +30,7 @@ type act struct {
 type prog struct {
 	Acts    map[string]act `json:"acts"`
 	PassURL bool           `json:"pass_url,omitempty"` // vcl_recv passes URLs under /pass
+	Boom    bool           `json:"boom,omitempty"`     // vcl_recv restarts URLs under /boom unconditionally: the request ends in the restart-limit error
 }
 type reqSpec struct {
 	URL string `json:"url"`
@@ -203,6 +204,64 @@ func gen(g *fw.GenCtx) {
 			}
 		}
 	}
+	// a restart in one scope (first pass only) and a deviation that shows on the SECOND pass only
+	nrs := 0
+	for _, s1 := range []string{"recv", "hit", "fetch", "error", "deliver"} {
+		for _, form := range []act{{Kind: "restart", Guard: "==0"}, {Kind: "return", Arg: "restart", Guard: "==0"}} {
+			for _, s2 := range scopes {
+				for _, d := range devs {
+					d.Guard = "==1"
+					if s2 == s1 {
+						continue
+					}
+					for _, br := range []string{"miss", "hit"} {
+						nrs++
+						// quick: a sixth of the family, but always "restart out of a hit, then something else in vcl_recv"
+						if g.Quick() && nrs%6 != 0 && !(s1 == "hit" && br == "hit" && s2 == "recv") {
+							continue
+						}
+						acts := map[string]act{s1: form, s2: d}
+						if s1 == "error" {
+							if s2 == "recv" {
+								continue
+							}
+							acts["recv"] = act{Kind: "error", Guard: "==0"}
+						}
+						emit(scase{Prog: prog{Acts: acts, PassURL: true}, Reqs: entryReqs(br)})
+					}
+				}
+			}
+		}
+	}
+	// a request that ends in a reported error (restart limit) between two ordinary ones: what the simulator
+	// keeps across requests must survive it
+	for _, t := range []string{"3600", "0"} {
+		for _, seq := range [][]string{{"/a", "/boom", "/a"}, {"/boom", "/a", "/a"}, {"/a", "/a", "/boom"}, {"/a", "/boom/x", "/b"}} {
+			var reqs []reqSpec
+			for _, u := range seq {
+				reqs = append(reqs, reqSpec{u, t})
+			}
+			emit(scase{Prog: prog{Acts: map[string]act{}, PassURL: true, Boom: true}, Reqs: reqs})
+			emit(scase{Prog: prog{Acts: map[string]act{"deliver": {Kind: "restart", Guard: "==0"}}, PassURL: true, Boom: true}, Reqs: reqs})
+		}
+	}
+	for _, seq := range [][]string{{"/rate", "/boom", "/rate"}, {"/boom", "/rate", "/rate"}, {"/rate", "/rate", "/boom"}} {
+		var reqs []reqSpec
+		for _, u := range seq {
+			reqs = append(reqs, reqSpec{u, "0"})
+		}
+		emit(scase{Prog: prog{Acts: map[string]act{}, Boom: true}, Reqs: reqs, Rate: true})
+	}
+	// vcl_fetch returning pass / hit_for_pass / error: the next request to the same URL must not be a hit
+	for _, fa := range []act{{Kind: "return", Arg: "pass"}, {Kind: "return", Arg: "hit_for_pass"}, {Kind: "error"}, {Kind: "return", Arg: "error"}} {
+		for _, n := range []int{2, 3} {
+			var reqs []reqSpec
+			for k := 0; k < n; k++ {
+				reqs = append(reqs, reqSpec{"/a", "3600"})
+			}
+			emit(scase{Prog: prog{Acts: map[string]act{"fetch": fa}, PassURL: true}, Reqs: reqs})
+		}
+	}
 	// rate counter / penalty box persistence
 	for n := 1; n <= 3; n++ {
 		var reqs []reqSpec
@@ -271,6 +330,9 @@ func render(p prog, rate bool) string {
 			if p.PassURL {
 				sb.WriteString("if (req.url ~ \"^/pass\") { return(pass); }\n")
 			}
+			if p.Boom {
+				sb.WriteString("if (req.url ~ \"^/boom\") { restart; }\n")
+			}
 		}
 		sb.WriteString(p.Acts[s].render())
 		sb.WriteString("}\n")
@@ -298,7 +360,10 @@ var restartStmtScopes = map[string]bool{"recv": true, "hit": true, "fetch": true
 type cacheEntry struct {
 	stored  bool
 	unknown bool
-	hits    int
+	// noHit: vcl_fetch returned pass / hit_for_pass for this object: the next lookup must not take the
+	// hit branch (it may miss or, with a real hit-for-pass object, pass)
+	noHit bool
+	hits  int
 }
 type cacheModel map[string]*cacheEntry
 
@@ -313,6 +378,8 @@ type expect struct {
 	hits      int
 	edges     []string
 	ambiguous bool // cache state unknown for a lookup on this path
+	// hfpAt > 0: flow[hfpAt] is "miss" after a hit-for-pass object; "pass" is accepted there as well
+	hfpAt int
 }
 
 func guardTrue(g string, restarts int) bool {
@@ -363,6 +430,11 @@ func simulate(p prog, rq reqSpec, cm cacheModel) expect {
 			action = "pass"
 			e.free, e.freeWhy = false, ""
 		}
+		if scope == "recv" && p.Boom && strings.HasPrefix(rq.URL, "/boom") {
+			action = "restart"
+			a = act{Kind: "restart"}
+			e.free, e.freeWhy = false, ""
+		}
 		if e.free {
 			return e
 		}
@@ -392,8 +464,15 @@ func simulate(p prog, rq reqSpec, cm cacheModel) expect {
 				// not cacheable: nothing is stored (an existing entry stays)
 			case action == "deliver":
 				if !ce.stored {
-					ce.stored, ce.hits, ce.unknown = true, 0, false
+					ce.stored, ce.hits, ce.unknown, ce.noHit = true, 0, false, false
 				}
+			case action == "pass" || action == "hit_for_pass":
+				// hit-for-pass: the response is not to be served from cache
+				if !ce.stored {
+					ce.noHit = true
+				}
+			case action == "error" || a.Kind == "error":
+				// the response is discarded: nothing is stored
 			default:
 				ce.unknown = true
 			}
@@ -437,6 +516,9 @@ func simulate(p prog, rq reqSpec, cm cacheModel) expect {
 			default:
 				e.hitFinal = 0
 				scope = "miss"
+				if ce != nil && ce.noHit {
+					e.hfpAt = len(e.flow)
+				}
 			}
 		case "pass":
 			passing = true
@@ -486,6 +568,7 @@ func runCase(oc *fw.Outcome, c scase) {
 	it := interpreter.New(context.WithResolver(resolver.NewStaticResolver("main.vcl", src)))
 	cm := cacheModel{}
 	progKey, _ := json.Marshal(c.Prog)
+	recvEntries := 0
 	for ri, rq := range c.Reqs {
 		oc.Evals++
 		dbg := &nopDebugger{}
@@ -575,6 +658,12 @@ func runCase(oc *fw.Outcome, c scase) {
 			return
 		}
 		want := strings.Join(exp.flow, ">")
+		if got != want && exp.hfpAt > 0 && exp.hfpAt < len(exp.flow) && exp.hfpAt < len(flow) && flow[exp.hfpAt] == "pass" {
+			// a hit-for-pass object sends the lookup to vcl_pass: accepted as well as a miss
+			alt := append([]string{}, exp.flow...)
+			alt[exp.hfpAt] = "pass"
+			want = strings.Join(alt, ">")
+		}
 		if got != want {
 			oc.Violate("edge:"+firstDivergence(exp, flow), fmt.Sprintf("flow is %s, the reference machine gives %s", got, want), detail())
 			return
@@ -585,8 +674,12 @@ func runCase(oc *fw.Outcome, c scase) {
 		if exp.errorEnd {
 			if rp.Error == "" {
 				oc.Violate("restart-bound:no-error/"+edge, "a fourth restart must end the request with a reported error", detail())
+				return
 			}
-			return // the instance may be left mid-request; stop this history
+			// the request was answered with a reported error; the instance goes on serving: state made before the
+			// error (cache, rate counters, penalty boxes) must persist for the next request of this history
+			recvEntries += count(exp.flow, "recv")
+			continue
 		}
 		if rp.Error != "" {
 			oc.Violate("error:"+edge, "request along a documented path ended in a reported error: "+clip(rp.Error, 200), detail())
@@ -623,18 +716,31 @@ func runCase(oc *fw.Outcome, c scase) {
 			if xc != "MISS" {
 				oc.Violate("cache:"+class+"/x-cache", fmt.Sprintf("miss/pass branch taken but X-Cache is %q", xc), detail())
 			}
-			if rp.Cached && !exp.hitAny {
-				oc.Violate("cache:"+class+"/cached", "no hit branch taken but `cached` is true", detail())
+			if rp.Cached {
+				oc.Violate("cache:"+class+"/cached", "the branch taken (after the last restart) is not the hit branch but `cached` is true", detail())
 			}
 			oc.Tag("branch:miss-or-pass")
 		}
+		recvEntries += count(exp.flow, "recv")
 		if c.Rate {
-			checkRate(oc, rp, ri, detail)
+			checkRate(oc, rp, ri, recvEntries, detail)
 		}
 	}
 }
 
-func checkRate(oc *fw.Outcome, rp reply, ri int, detail func() map[string]any) {
+func count(flow []string, s string) int {
+	n := 0
+	for _, f := range flow {
+		if f == s {
+			n++
+		}
+	}
+	return n
+}
+
+// checkRate: recvEntries is the number of times vcl_recv was entered on this instance so far (every entry
+// increments the counter and adds the penalty box entry), including the requests that ended in an error.
+func checkRate(oc *fw.Outcome, rp reply, ri int, recvEntries int, detail func() map[string]any) {
 	var has, bucket string
 	for _, l := range rp.Logs {
 		if strings.HasPrefix(l.Message, "HAS:") {
@@ -645,14 +751,14 @@ func checkRate(oc *fw.Outcome, rp reply, ri int, detail func() map[string]any) {
 		}
 	}
 	wantHas := "0"
-	if ri > 0 {
+	if recvEntries > 1 {
 		wantHas = "1"
 	}
 	if has != wantHas {
 		oc.Violate("state:penaltybox", fmt.Sprintf("request %d: penaltybox_has = %q, expected %q (entry added by the previous request)", ri, has, wantHas), detail())
 	}
-	if bucket != fmt.Sprint(ri+1) {
-		oc.Violate("state:ratecounter", fmt.Sprintf("request %d: bucket.60s = %q, expected %d (one increment per request so far)", ri, bucket, ri+1), detail())
+	if bucket != fmt.Sprint(recvEntries) {
+		oc.Violate("state:ratecounter", fmt.Sprintf("request %d: bucket.60s = %q, expected %d (one increment per entry of vcl_recv so far)", ri, bucket, recvEntries), detail())
 	}
 	oc.Tag("rate-request")
 }
